@@ -135,8 +135,12 @@ func (t *QuicTransport) exchangeStream(ctx context.Context, payload []byte, stre
 		err  error
 	}
 	rc := make(chan res, 1)
+	// The worker may outlive this call (ctx.Done()), and the caller releases
+	// payload when we return. Give the worker its own copy.
+	workerPayload := pool.CopyBuf(payload)
 	go func() {
-		_, err := stream.Write(payload)
+		_, err := stream.Write(workerPayload)
+		pool.ReleaseBuf(workerPayload)
 		if err != nil {
 			stream.CancelRead(_DOQ_REQUEST_CANCELLED)
 			stream.CancelWrite(_DOQ_REQUEST_CANCELLED)
